@@ -361,7 +361,11 @@ class Engine:
                 raise Unsupported("async for")
             src = it.eval(node.iter, env)
             conc = lib.concrete_items(it, src)
-            if conc is not None:            # literal / known length: unrolled, complete
+            c0 = st.contract
+            forced = c0.loop_spec(it, node, env) if (c0 is not None and conc is not None) else None
+            if forced is not None and not forced.get("force"):
+                forced = None
+            if conc is not None and forced is None:            # literal / known length: unrolled, complete
                 broke = False
                 for x in conc:
                     it.assign(node.target, x, env)
